@@ -607,9 +607,14 @@ def namedCond (id : String) (arg : Int) (v0 : Val) : Except Exc Bool :=
   | _ => .error { cls := .other, msg := "unknown predicate " ++ id }
 
 /-- named `__post_init__` hooks; mirrored in tools/impl.py.  `reject_neg:<field>`, `raise_always`,
-`fill:<field>` (assigns 0 to a field). -/
-def namedHook (id : String) (fs : List (String × Val)) : Except Exc (List (String × Val)) :=
+`fill:<field>` (assigns 0 to a field), `need_set:<k>` (reads the record of set fields `set`, which the
+hook sees on every construction path: fails unless exactly `k` fields are set). -/
+def namedHook (id : String) (fs : List (String × Val)) (set : List String) : Except Exc (List (String × Val)) :=
   if id == "raise_always" then .error { cls := .typeError, msg := "TypeError: hook failed" }
+  else if id.startsWith "need_set:" then
+    match (id.drop 9).toString.toNat? with
+    | some k => if set.length == k then .ok fs else .error { cls := .valueError, msg := "ValueError: need_set" }
+    | none => .error { cls := .valueError, msg := "ValueError: need_set" }
   else if id.startsWith "reject_neg:" then
     let f := (id.drop 11).toString
     match fs.find? (·.1 == f) with
